@@ -55,6 +55,7 @@ def generate(tier, seed, work, stats):
     gcases = c08.grammar_cases(tier, seed, work, stats, [(2, 2, 3, 2, gk)], [("upper", "ab")])
     pfam = [(2, ("Z", "X"), ("a",), 2, 2, 1, pk), (1, ("Z", "X"), ("a", "b"), 2, 2, 1, max(1, pk // 3))]
     pcases = c13.pda_cases(tier, seed, work, stats, pfam)
+    pcases = [c for c in pcases if not c.get("ctor")]
     per = 3 if tier == "quick" else 8
     cases = []
     k = 0
